@@ -4,18 +4,18 @@ go 1.21
 
 require (
 	github.com/apex/log v1.9.0
+	github.com/c2h5oh/datasize v0.0.0-20200825124411-48ed595a09d2
 	github.com/itchio/go-brotli v0.0.0-20190702114328-3f28d645a45c
 	github.com/pkg/xattr v0.4.3
 	github.com/richiefi/rrrouter v0.0.0
+	gopkg.in/yaml.v2 v2.3.0
 )
 
 require (
-	github.com/c2h5oh/datasize v0.0.0-20200825124411-48ed595a09d2 // indirect
 	github.com/getsentry/sentry-go v0.11.0 // indirect
 	github.com/pkg/errors v0.9.1 // indirect
 	github.com/satori/go.uuid v1.2.0 // indirect
 	golang.org/x/sys v0.0.0-20201101102859-da207088b7d1 // indirect
-	gopkg.in/yaml.v2 v2.3.0 // indirect
 )
 
 replace github.com/richiefi/rrrouter => /repo
